@@ -19,6 +19,8 @@ type dataOpts struct {
 	unknownProb float64
 	safeStrings bool
 	bigNumbers  bool
+	hostileIDs  bool
+	bigType     string // this type gets 55-70 entities (batched lookups)
 }
 
 func genData(r *rand.Rand, fed *federation, o dataOpts) *dataGraph {
@@ -40,10 +42,19 @@ func genData(r *rand.Rand, fed *federation, o dataOpts) *dataGraph {
 		}
 		n := 2 + r.Intn(3)
 		perm := r.Perm(len(idPool))
+		if tn == o.bigType {
+			n = 55 + r.Intn(16)
+		}
 		for i := 0; i < n; i++ {
-			id := idPool[perm[i]]
+			id := fmt.Sprint(i + 1)
+			if tn != o.bigType {
+				id = idPool[perm[i]]
+			}
 			if o.safeStrings {
 				id = fmt.Sprint(i + 1)
+			}
+			if o.hostileIDs && i == 0 && r.Intn(3) == 0 {
+				id = []string{"i\ad", "a  b", "d\x7f"}[r.Intn(3)]
 			}
 			d.add(&entity{Type: tn, ID: id, Fields: map[string]interface{}{}})
 		}
@@ -104,6 +115,13 @@ func genVal(r *rand.Rand, fed *federation, d *dataGraph, t *ast.Type, o dataOpts
 	}
 	if !t.NonNull && o.plantBad && r.Float64() < 0.04 {
 		return errVal{}
+	}
+	if t.Elem != nil && o.bigType != "" && t.Elem.Elem == nil && t.Elem.NamedType == o.bigType && depth == 0 && r.Intn(2) == 0 {
+		out := listVal{}
+		for _, id := range d.Order[o.bigType] {
+			out = append(out, refVal{o.bigType, id})
+		}
+		return out
 	}
 	if t.Elem != nil {
 		n := r.Intn(4)
